@@ -3,7 +3,7 @@ package main
 // C19 — a perceptual hash is its defined function of the pixels; wrong sizes
 // and nil are rejected; distances are Hamming distances.
 //
-// Enumerated: a finite image family (6 pixel formats (RGBA, NRGBA at alpha 200, Gray, YCbCr 4:4:4, NRGBA and RGBA with fully transparent pixels) x 4 rectangle placements
+// Enumerated: a finite image family (12 pixel formats (RGBA, NRGBA at alpha 200, Gray, YCbCr 4:4:4 and 4:2:0, NRGBA and RGBA with fully transparent pixels, Gray16, RGBA64, Paletted, CMYK, NYCbCrA 4:2:2) x 4 rectangle placements
 // x ~470 contents per hash size), every size in a window around the required
 // one (each followed by a valid call: history), and all triples of a hash set.
 // Reference: independent float64 separable DCT-II of the documented luminance.
@@ -35,10 +35,16 @@ const (
 	kYCbCr
 	kNRGBAHoles
 	kRGBAHoles
+	kYCbCr420
+	kGray16
+	kRGBA64
+	kPaletted
+	kCMYK
+	kNYCbCrA
 	nKinds
 )
 
-var kindName = []string{"RGBA", "NRGBA", "Gray", "YCbCr444", "NRGBA with fully transparent pixels", "RGBA with fully transparent pixels"}
+var kindName = []string{"RGBA", "NRGBA", "Gray", "YCbCr444", "NRGBA with fully transparent pixels", "RGBA with fully transparent pixels", "YCbCr420", "Gray16", "RGBA64", "Paletted", "CMYK", "NYCbCrA"}
 
 const nOrigins = 4
 
@@ -223,8 +229,78 @@ func buildImage(kind, origin, n int, c content) image.Image {
 			return m.SubImage(sub)
 		}
 		return m
+	case kGray16, kRGBA64, kPaletted, kCMYK, kNYCbCrA:
+		// formats that take the generic image.Image path
+		var m interface {
+			image.Image
+			Set(x, y int, c color.Color)
+		}
+		switch kind {
+		case kGray16:
+			m = image.NewGray16(r)
+		case kRGBA64:
+			m = image.NewRGBA64(r)
+		case kPaletted:
+			pal := make(color.Palette, 256)
+			for i := range pal {
+				pal[i] = color.RGBA{uint8(i), uint8(255 - i), uint8(i / 2), 255}
+			}
+			m = image.NewPaletted(r, pal)
+		case kCMYK:
+			m = image.NewCMYK(r)
+		case kNYCbCrA:
+			n := image.NewNYCbCrA(r, image.YCbCrSubsampleRatio422)
+			for i := range n.A {
+				n.A[i] = 0xff
+			}
+			for i := range n.Cb {
+				n.Cb[i], n.Cr[i] = 128, 128
+			}
+			for Y := r.Min.Y; Y < r.Max.Y; Y++ {
+				for X := r.Min.X; X < r.Max.X; X++ {
+					v, _ := val(X, Y)
+					n.Y[n.YOffset(X, Y)] = v
+					rx, ry := X-r.Min.X, Y-r.Min.Y
+					if origin == 3 {
+						rx, ry = X-8, Y-8
+					}
+					if (rx+ry)%9 == 0 {
+						n.A[n.AOffset(X, Y)] = v
+					}
+				}
+			}
+			if origin == 3 {
+				return n.SubImage(sub)
+			}
+			return n
+		}
+		for Y := r.Min.Y; Y < r.Max.Y; Y++ {
+			for X := r.Min.X; X < r.Max.X; X++ {
+				v, _ := val(X, Y)
+				switch kind {
+				case kGray16:
+					m.Set(X, Y, color.Gray16{uint16(v)*257 - uint16(v%3)})
+				case kRGBA64:
+					m.Set(X, Y, color.RGBA64{uint16(v) * 257, uint16(255-v) * 200, uint16(v) * 100, 0xffff})
+				case kPaletted:
+					m.(*image.Paletted).SetColorIndex(X, Y, v)
+				case kCMYK:
+					m.Set(X, Y, color.CMYK{v, 255 - v, v / 2, 10})
+				}
+			}
+		}
+		if origin == 3 {
+			return m.(interface {
+				SubImage(image.Rectangle) image.Image
+			}).SubImage(sub)
+		}
+		return m
 	default:
-		m := image.NewYCbCr(r, image.YCbCrSubsampleRatio444)
+		ratio := image.YCbCrSubsampleRatio444
+		if kind == kYCbCr420 {
+			ratio = image.YCbCrSubsampleRatio420
+		}
+		m := image.NewYCbCr(r, ratio)
 		for Y := r.Min.Y; Y < r.Max.Y; Y++ {
 			for X := r.Min.X; X < r.Max.X; X++ {
 				v, in := val(X, Y)
@@ -234,7 +310,11 @@ func buildImage(kind, origin, n int, c content) image.Image {
 				if origin == 3 {
 					rx, ry = X-8, Y-8
 				}
-				if in {
+				if in && kind == kYCbCr420 {
+					// chroma samples are shared by 2x2 pixels: neutral chroma keeps the pixels
+					// identical whatever the parity of the rectangle origin
+					m.Cb[m.COffset(X, Y)], m.Cr[m.COffset(X, Y)] = 128, 128
+				} else if in {
 					m.Cb[m.COffset(X, Y)] = uint8(128 + (rx*3+ry)%32 - 16)
 					m.Cr[m.COffset(X, Y)] = uint8(128 - (rx+2*ry)%24 + 12)
 				} else {
@@ -581,7 +661,7 @@ func c19Family(hi int, kinds, origins []int) mc.Harness {
 			// the conversion itself must give the documented luminance of the pixels: exactly (up to
 			// float32 rounding) for every format but YCbCr, within 2.0 per pixel for YCbCr (C20)
 			tol := 1e-3
-			if kind == kYCbCr {
+			if kind == kYCbCr || kind == kYCbCr420 {
 				tol = 2.0
 			}
 			for i := range px {
@@ -859,11 +939,11 @@ func init() {
 	register(&mc.Check{
 		Property: "C19",
 		Spaces: func(tier string) []mc.Space {
-			allK := []int{kRGBA, kNRGBA, kGray, kYCbCr, kNRGBAHoles, kRGBAHoles}
+			allK := []int{kRGBA, kNRGBA, kGray, kYCbCr, kNRGBAHoles, kRGBAHoles, kYCbCr420, kGray16, kRGBA64, kPaletted, kCMYK, kNYCbCrA}
 			allO := []int{0, 1, 2, 3}
 			sp := []mc.Space{
 				{Name: "family-64", H: c19Family(0, allK, allO), NoLevels: true, Isolate: true, SplitDepth: 1,
-					Rule: "64x64 images: 6 pixel formats (RGBA, NRGBA at alpha 200, Gray, YCbCr 4:4:4, NRGBA and RGBA with fully transparent pixels) x 4 rectangle placements x the content family (constants, every low-frequency cosine basis image at two amplitudes and rectified on black, two-basis sums, ramps, checkerboards, single bright/dark pixels on a grid, fixed noise); both gray conversions vs the documented luminance of the pixels (exact; 2.0 per pixel for YCbCr), both implementations vs an independent float64 DCT-II of the documented luminance, margins 1e-11*L1 / 4e-5*L1 (+ measured conversion distance); repeated and pool-poisoned calls; placement invariance"},
+					Rule: "64x64 images: 12 pixel formats (RGBA, NRGBA at alpha 200, Gray, YCbCr 4:4:4 and 4:2:0, NRGBA and RGBA with fully transparent pixels, Gray16, RGBA64, Paletted, CMYK, NYCbCrA 4:2:2) x 4 rectangle placements x the content family (constants, every low-frequency cosine basis image at two amplitudes and rectified on black, two-basis sums, ramps, checkerboards, single bright/dark pixels on a grid, fixed noise); both gray conversions vs the documented luminance of the pixels (exact; 2.0 per pixel for YCbCr), both implementations vs an independent float64 DCT-II of the documented luminance, margins 1e-11*L1 / 4e-5*L1 (+ measured conversion distance); repeated and pool-poisoned calls; placement invariance"},
 				{Name: "sizes-64", H: c19Sizes(0, 56, 72, 300), NoLevels: true, Isolate: true, SplitDepth: 1,
 					Rule: "every (w,h) in [56,72]^2, 64x[0,300], [0,300]x64 x {Gray, RGBA, YCbCr 4:2:0} x history {pristine, after a valid hash, poisoned pools}: error and zero hash unless exactly 64x64; following valid call unchanged"},
 				{Name: "nil-image", H: c19Nil, NoLevels: true, Isolate: true},
